@@ -108,7 +108,8 @@ def nontrivial(prog, steps):
 
 def main(argv):
     return rcheck.run(
-        PID, argv, module="C02", theorems=['C02_one_entry_per_scheduled_node', 'C02_schedule_has_no_duplicates', 'C02_runs_only_if_dirty', 'C02_step'], bridge=1500, extra_targets=["theories/Reactive/Bridge.vo"], gen=gen, oracle=rcheck.glitch_failures, nontrivial=nontrivial,
+        PID, argv, module="C02", theorems=['C02_one_entry_per_scheduled_node', 'C02_schedule_has_no_duplicates', 'C02_runs_only_if_dirty', 'C02_step', 'C02_write_schedule',
+                                          'C02_write_reads_settled', 'C02_write_runs_only_if_fired', 'C02_write_runs_if_fired', 'C02_untracked_read_sees_stale_value'], bridge=1500, extra_targets=["theories/Reactive/Bridge.vo"], gen=gen, oracle=rcheck.glitch_failures, nontrivial=nontrivial,
         rule=("effect-write-free programs: the C01 small family, layered diamonds (depth 2-4, fan-in through selectors with "
               "coarse equality, conditional reads, effects creating inner effects), fan-in graphs under batches that write several "
               "signals in every order (multi-source propagation), random programs; histories of writes and "
